@@ -136,7 +136,9 @@ def beta(r, core=False, mp=True):
         return s * dyadic(r, 0.01, 0.9)
     if not mp:
         return s * dyadic(r, 0.9, 0.95)
-    return s * (1 - mpf(2) ** r.choice([-8, -16, -30]))
+    # ultra-relativistic strata (60-digit runs only): gamma from 11 up to 2.4e7 -- beyond any "safety floor" a kernel might
+    # put under 1 - beta**2
+    return s * (1 - mpf(2) ** r.choice([-8, -16, -30, -44, -50]))
 
 
 def gamma(r, core=False):
